@@ -60,6 +60,9 @@ OPS += [
     # a string value may be NULL
     ['set', 'str', 's', None, None], ['set', 'str', 'sl', None, 1], ['set', 'str', 'sl', None, 2], ['optset', 'str', 'sl', None, 0], ['setlist', 'sl', 'str', ['p', None]],
     ['addlist', 'sl', 'str', [None]],
+    # far indices and positions (meaningful from the large start state)
+    ['set', 'int', 'il', 77, 39], ['set', 'int', 'il', 78, 40], ['rmnsec', 'sec', 19], ['rmnsec', 'msec', 19], ['rmnsec', 'msec', 10], ['rmtsec', 'sec', 's19'], ['rmtsec', 'sec', 's0'],
+    ['rmsec', 'sec=s10'], ['rmsec', 'msec=19'], ['set', 'int', 'sec=s19|x', 5, None], ['set', 'int', 'msec=19|y', 6, None], ['addtsec', 'sec', 's20'], ['set', 'str', 'sl', 'far', 19],
 ]
 
 RULE = ('all call sequences up to depth N over %d concrete calls (typed setters at index 0/1/2/3, setlist, addlist, setmulti good/bad, setopt, '
@@ -73,6 +76,9 @@ STARTS = {
     'p1': 'i = 3\nil = {4, 5, 6}\nsl += {c}\nsec t1 { x = 1 }\nsec t2 { xl += {8} }\nmsec { y = 1 }\nmsec { y = 2 }\none { z = 7 }\n',
     'p2': 'il = {}\nsl = {only}\nel = {1,2,3}\nnd = 4\nsec t2 { }\nsec t1 { x = 2 }\nmsec { }\n',
     'p3': 'il += {9}\ns = "p"\nf = 2\nb = yes\nsec t1 { }\nsec t1 { x = 5 }\n',
+    # sizes beyond the first array-growth steps: 40 list elements, 20 titled and 20 untitled sections
+    'p4': 'il = {%s}\nsl = {%s}\n%s%s' % (', '.join(str(k) for k in range(40)), ', '.join('w%d' % k for k in range(20)),
+                                            ''.join('sec s%d { x = %d }\n' % (k, k) for k in range(20)) + 'sec t1 { x = 1 }\nsec t2 { }\n', ''.join('msec { y = %d }\n' % k for k in range(20))),
 }
 
 
@@ -105,6 +111,14 @@ def start_model(which):
     elif which == 'p3':
         setv(o('il'), [1, 2, 9]); setv(o('s'), ['p']); setv(o('f'), [2.0]); setv(o('b'), [1])
         t1 = addsec('sec', 't1'); setv(o('x', t1), [5])
+    elif which == 'p4':
+        setv(o('il'), list(range(40))); setv(o('sl'), ['w%d' % k for k in range(20)])
+        for k in range(20):
+            sk = addsec('sec', 's%d' % k); setv(o('x', sk), [k])
+        t1 = addsec('sec', 't1'); setv(o('x', t1), [1])
+        addsec('sec', 't2')
+        for k in range(20):
+            mk = addsec('msec', None); setv(o('y', mk), [k])
     return root
 
 
@@ -204,7 +218,7 @@ def gen(tier, seed):
         for seq in itertools.product(range(64), repeat=4):
             yield {'start': 'init', 'ops': list(seq)}
     pdepth = 2 if tier == 'quick' else 3
-    for st in ('p1', 'p2', 'p3'):
+    for st in ('p1', 'p2', 'p3', 'p4'):
         for d in range(1, pdepth + 1):
             for seq in itertools.product(range(n if d < 3 else NCORE), repeat=d):
                 yield {'start': st, 'ops': list(seq)}
